@@ -155,6 +155,9 @@ macro_rules! dispatch_impl {
                 $($id => Some(run_case::<$t>(bytes)),)*
                 25 => Some(run_payload_body(25, bytes)),
                 26 => Some(run_payload_body(26, bytes)),
+                50 => Some(run_case::<Payload>(bytes)),
+                51 => Some(run_case::<UpdatePayload>(bytes)),
+                52 => Some(run_case::<BI>(bytes)),
                 _ => dispatch_gen(id, bytes),
             }
         }
@@ -222,11 +225,11 @@ unmodelled!(named_impl);
 
 // ---------------------------------------------------------------- pool of opaque leaves
 struct Pool { ed_pk: Vec<Vec<u8>>, vrf_pk: Vec<Vec<u8>>, bls_pk: Vec<Vec<u8>>, dlog: Vec<Vec<u8>>, blsproof: Vec<Vec<u8>>,
-              cred_id: Vec<Vec<u8>>, elg_pk: Vec<Vec<u8>>, g1: Vec<Vec<u8>>, bakers: Vec<(BakerAddKeysPayload, BakerUpdateKeysPayload, ConfigureBakerKeysPayload)>, keypairs: Vec<KeyPair> }
+              cred_id: Vec<Vec<u8>>, elg_pk: Vec<Vec<u8>>, g1: Vec<Vec<u8>>, g2: Vec<Vec<u8>>, fr: Vec<Vec<u8>>, bakers: Vec<(BakerAddKeysPayload, BakerUpdateKeysPayload, ConfigureBakerKeysPayload)>, keypairs: Vec<KeyPair> }
 
 fn make_pool(seed: u64) -> Pool {
     let mut rng = StdRng::seed_from_u64(seed ^ 0x5eed_c05);
-    let mut p = Pool { ed_pk: vec![], vrf_pk: vec![], bls_pk: vec![], dlog: vec![], blsproof: vec![], cred_id: vec![], elg_pk: vec![], g1: vec![], bakers: vec![], keypairs: vec![] };
+    let mut p = Pool { ed_pk: vec![], vrf_pk: vec![], bls_pk: vec![], dlog: vec![], blsproof: vec![], cred_id: vec![], elg_pk: vec![], g1: vec![], g2: vec![], fr: vec![], bakers: vec![], keypairs: vec![] };
     for i in 0..4u8 {
         let kp = BakerKeyPairs::generate(&mut rng);
         let sender = AccountAddress([i; 32]);
@@ -263,6 +266,14 @@ fn make_pool(seed: u64) -> Pool {
     }
     { use concordium_base::curve_arithmetic::Curve; p.g1.push(to_bytes(&concordium_base::id::constants::ArCurve::zero_point())); }
     let extra: Vec<Vec<u8>> = p.cred_id.clone(); p.g1.extend(extra);
+    for i in 0..5u64 {
+        use concordium_base::curve_arithmetic::{Curve, Field};
+        type G2 = concordium_base::id::constants::BlsG2;
+        p.g2.push(to_bytes(&if i == 0 { G2::zero_point() } else { G2::generate(&mut rng) }));
+        let sc = match i { 0 => <concordium_base::id::constants::ArCurve as Curve>::Scalar::zero(), 1 => <concordium_base::id::constants::ArCurve as Curve>::Scalar::one(),
+                           _ => concordium_base::id::constants::ArCurve::generate_scalar(&mut rng) };
+        p.fr.push(to_bytes(&sc));
+    }
     p
 }
 
@@ -576,6 +587,7 @@ fn fuzz(seed: u64, n: u64) {
     let mut keys: Vec<String> = named_types().iter().map(|s| s.to_string()).collect();
     for id in 1..=MAX_ID { keys.push(id.to_string()); }
     for (id, _) in gen_ids() { keys.push(id.to_string()); }
+    for id in 50..=52u32 { keys.push(id.to_string()); }
     let pool = make_pool(seed);
     let mut g = G { r: Rng::new(seed ^ 0x77), pool: &pool };
     for (ti, key) in keys.iter().enumerate() {
@@ -612,7 +624,7 @@ fn fuzz(seed: u64, n: u64) {
 use concordium_base::id::{constants::{ArCurve, AttributeKind, IpPairing}, types as idt};
 
 struct Heavy { ip_info: IpInfoT, ars: Vec<ArInfoT>, icdi: idt::InitialCredentialDeploymentInfo<ArCurve, AttributeKind>, cdi: CredInfo,
-               enc: EncAmountTransfer, s2p: SecToPub }
+               enc: EncAmountTransfer, s2p: SecToPub, global: GlobalCtx }
 
 fn make_heavy(seed: u64) -> Heavy {
     use concordium_base::id::{account_holder::create_credential, identity_provider::verify_credentials, test::*};
@@ -650,7 +662,7 @@ fn make_heavy(seed: u64) -> Heavy {
         agg_amount: Amount::from_micro_ccd(bal), agg_index: 3u64.into() };
     let enc = et::make_transfer_data(&global, &pk2, &sk, &input, Amount::from_micro_ccd(777), &mut csprng).expect("transfer data");
     let s2p = et::make_sec_to_pub_transfer_data(&global, &sk, &input, Amount::from_micro_ccd(bal), &mut csprng).expect("sec to pub");
-    Heavy { ip_info, ars: ars_infos.into_values().collect(), icdi, cdi, enc, s2p }
+    Heavy { ip_info, ars: ars_infos.into_values().collect(), icdi, cdi, enc, s2p, global }
 }
 
 fn de<T: Deserial>(b: &[u8]) -> T { concordium_base::common::from_bytes(&mut std::io::Cursor::new(b)).expect("fixture bytes decode") }
@@ -780,88 +792,88 @@ fn variants(seed: u64, reps: u64) {
     let pl = |p: &Payload| payload_variant(p).to_string();
     for rep in 0..reps {
         // ---- Payload: the variants with generators in G (sizes vary per repetition) ...
-        for _ in 0..14 { emit!("Payload", Some(27), g.payload(), pl); }
+        for _ in 0..14 { emit!("Payload", Some(50), g.payload(), pl); }
         for want in ["Transfer", "AddBaker", "RemoveBaker", "UpdateBakerStake", "UpdateBakerRestakeEarnings", "UpdateBakerKeys", "UpdateCredentialKeys",
                      "TransferToEncrypted", "TransferWithSchedule", "RegisterData", "TransferWithMemo", "TransferWithScheduleAndMemo", "ConfigureBaker", "ConfigureDelegation"] {
-            if rep == 0 { loop { let p = g.payload(); if payload_variant(&p) == want { emit!("Payload", Some(27), p, pl); break; } } }
+            if rep == 0 { loop { let p = g.payload(); if payload_variant(&p) == want { emit!("Payload", Some(50), p, pl); break; } } }
         }
         // ... and the others
         let src_len = *g.r.pick(&[0usize, 1, 8, 300]);
         let mut wasm = vec![0, 0, 0, (rep % 2) as u8]; wasm.extend((src_len as u32).to_be_bytes()); wasm.extend(g.r.bytes(src_len));
-        emit!("Payload", Some(27), Payload::DeployModule { module: de(&wasm) }, pl);
+        emit!("Payload", Some(50), Payload::DeployModule { module: de(&wasm) }, pl);
         let name = format!("init_{}", "c".repeat(*g.r.pick(&[1usize, 5, 95])));
         let param = { let l = *g.r.pick(&[0usize, 1, 40, 65535]); let mut b = (l as u16).to_be_bytes().to_vec(); b.extend(g.r.bytes(l)); b };
-        emit!("Payload", Some(27), Payload::InitContract { payload: InitContractPayload { amount: g.amount(), mod_ref: de(&g.r.bytes(32)),
+        emit!("Payload", Some(50), Payload::InitContract { payload: InitContractPayload { amount: g.amount(), mod_ref: de(&g.r.bytes(32)),
             init_name: concordium_base::smart_contracts::OwnedContractName::new_unchecked(name.clone()), param: de(&param) } }, pl);
         let rname = format!("{}.{}", &name[5..], "f".repeat(*g.r.pick(&[1usize, 3])));
-        emit!("Payload", Some(27), Payload::Update { payload: UpdateContractPayload { amount: g.amount(), address: ContractAddress::new(g.r.u64_edge(), g.r.u64_edge()),
+        emit!("Payload", Some(50), Payload::Update { payload: UpdateContractPayload { amount: g.amount(), address: ContractAddress::new(g.r.u64_edge(), g.r.u64_edge()),
             receive_name: concordium_base::smart_contracts::OwnedReceiveName::new_unchecked(rname), message: de(&param) } }, pl);
-        emit!("Payload", Some(27), Payload::EncryptedAmountTransfer { to: g.addr(), data: Box::new(heavy.enc.clone()) }, pl);
-        emit!("Payload", Some(27), Payload::EncryptedAmountTransferWithMemo { to: g.addr(), memo: g.memo(), data: Box::new(heavy.enc.clone()) }, pl);
-        emit!("Payload", Some(27), Payload::TransferToPublic { data: Box::new(heavy.s2p.clone()) }, pl);
+        emit!("Payload", Some(50), Payload::EncryptedAmountTransfer { to: g.addr(), data: Box::new(heavy.enc.clone()) }, pl);
+        emit!("Payload", Some(50), Payload::EncryptedAmountTransferWithMemo { to: g.addr(), memo: g.memo(), data: Box::new(heavy.enc.clone()) }, pl);
+        emit!("Payload", Some(50), Payload::TransferToPublic { data: Box::new(heavy.s2p.clone()) }, pl);
         let mut creds = BTreeMap::new();
         if rep % 2 == 0 { creds.insert(CredentialIndex { index: g.r.below(256) as u8 }, heavy.cdi.clone()); }
         let remove: Vec<CredentialRegistrationID> = (0..(rep % 3)).map(|i| de(&pool.cred_id[i as usize])).collect();
-        emit!("Payload", Some(27), Payload::UpdateCredentials { new_cred_infos: creds, remove_cred_ids: remove, new_threshold: (1 + g.r.below(255) as u8).try_into().unwrap() }, pl);
+        emit!("Payload", Some(50), Payload::UpdateCredentials { new_cred_infos: creds, remove_cred_ids: remove, new_threshold: (1 + g.r.below(255) as u8).try_into().unwrap() }, pl);
         let tok = { let id = *g.r.pick(&["T", "TOKEN", "a-b.c%d"]); let mut b = vec![id.len() as u8]; b.extend(id.as_bytes()); b };
         let cbor = { let l = *g.r.pick(&[0usize, 1, 50, 5000]); let mut b = (l as u32).to_be_bytes().to_vec(); b.extend(g.r.bytes(l)); b };
-        emit!("Payload", Some(27), Payload::TokenUpdate { payload: concordium_base::protocol_level_tokens::TokenOperationsPayload { token_id: de(&tok), operations: de(&cbor) } }, pl);
+        emit!("Payload", Some(50), Payload::TokenUpdate { payload: concordium_base::protocol_level_tokens::TokenOperationsPayload { token_id: de(&tok), operations: de(&cbor) } }, pl);
 
         // ---- UpdatePayload
         let ul = |u: &UpdatePayload| update_variant(u);
-        for w in 0..5 { emit!("UpdatePayload", Some(34), UpdatePayload::Root(g.root_update(w)), ul); }
-        for w in 0..4 { emit!("UpdatePayload", Some(34), UpdatePayload::Level1(g.level1_update(w)), ul); }
+        for w in 0..5 { emit!("UpdatePayload", Some(51), UpdatePayload::Root(g.root_update(w)), ul); }
+        for w in 0..4 { emit!("UpdatePayload", Some(51), UpdatePayload::Level1(g.level1_update(w)), ul); }
         for w in 0..5 { emit!("RootUpdate", Some(47), g.root_update(w), |r: &RootUpdate| root_variant(r).to_string()); }
         for w in 0..4 { emit!("Level1Update", Some(48), g.level1_update(w), |r: &Level1Update| level1_variant(r).to_string()); }
-        for _ in 0..12 { emit!("UpdatePayload", Some(34), g.update_payload(), ul); }
+        for _ in 0..12 { emit!("UpdatePayload", Some(51), g.update_payload(), ul); }
         let (l1, l2, l3) = (*g.r.pick(&[0u64, 10, 5000]), *g.r.pick(&[0u64, 30, 4097]), *g.r.pick(&[0usize, 10, 5000]));
         let s1 = g.ascii(l1); let s2 = g.ascii(l2); let aux = g.small_bytes(l3);
-        emit!("UpdatePayload", Some(34), UpdatePayload::Protocol(ProtocolUpdate { message: s1, specification_url: s2, specification_hash: de(&g.r.bytes(32)), specification_auxiliary_data: aux }), ul);
+        emit!("UpdatePayload", Some(51), UpdatePayload::Protocol(ProtocolUpdate { message: s1, specification_url: s2, specification_hash: de(&g.r.bytes(32)), specification_auxiliary_data: aux }), ul);
         let (a, b) = g.coprime();
-        emit!("UpdatePayload", Some(34), UpdatePayload::MicroGTUPerEuro(ExchangeRate::new(a.max(1), b).unwrap_or(ExchangeRate::new_unchecked(1, 1))), ul);
+        emit!("UpdatePayload", Some(51), UpdatePayload::MicroGTUPerEuro(ExchangeRate::new(a.max(1), b).unwrap_or(ExchangeRate::new_unchecked(1, 1))), ul);
         let (a, b) = g.coprime();
-        emit!("UpdatePayload", Some(34), UpdatePayload::EuroPerEnergy(ExchangeRate::new(a.max(1), b).unwrap_or(ExchangeRate::new_unchecked(1, 1))), ul);
-        emit!("UpdatePayload", Some(34), UpdatePayload::ElectionDifficulty(ElectionDifficulty::new(*g.r.pick(&[0u32, 1, 100_000])).unwrap()), ul);
-        emit!("UpdatePayload", Some(34), UpdatePayload::FoundationAccount(g.addr()), ul);
+        emit!("UpdatePayload", Some(51), UpdatePayload::EuroPerEnergy(ExchangeRate::new(a.max(1), b).unwrap_or(ExchangeRate::new_unchecked(1, 1))), ul);
+        emit!("UpdatePayload", Some(51), UpdatePayload::ElectionDifficulty(ElectionDifficulty::new(*g.r.pick(&[0u32, 1, 100_000])).unwrap()), ul);
+        emit!("UpdatePayload", Some(51), UpdatePayload::FoundationAccount(g.addr()), ul);
         let half = *g.r.pick(&[0u32, 1, 50_000, 100_000]);
         let fr = |x: u32| AmountFraction::new(x).unwrap();
-        emit!("UpdatePayload", Some(34), UpdatePayload::MintDistribution(MintDistributionV0 { mint_per_slot: MintRate { mantissa: g.r.u32_edge(), exponent: g.r.below(256) as u8 },
+        emit!("UpdatePayload", Some(51), UpdatePayload::MintDistribution(MintDistributionV0 { mint_per_slot: MintRate { mantissa: g.r.u32_edge(), exponent: g.r.below(256) as u8 },
             baking_reward: fr(half), finalization_reward: fr(100_000 - half) }), ul);
-        emit!("UpdatePayload", Some(34), UpdatePayload::MintDistributionCPV1(MintDistributionV1 { baking_reward: fr(half), finalization_reward: fr((100_000 - half) / 2) }), ul);
-        emit!("UpdatePayload", Some(34), UpdatePayload::TransactionFeeDistribution(TransactionFeeDistribution { baker: fr(half), gas_account: fr(100_000 - half) }), ul);
-        emit!("UpdatePayload", Some(34), UpdatePayload::GASRewards(GASRewards { baker: g.fraction(), finalization_proof: g.fraction(), account_creation: g.fraction(), chain_update: g.fraction() }), ul);
-        emit!("UpdatePayload", Some(34), UpdatePayload::GASRewardsCPV2(GASRewardsV1 { baker: g.fraction(), account_creation: g.fraction(), chain_update: g.fraction() }), ul);
-        emit!("UpdatePayload", Some(34), UpdatePayload::BakerStakeThreshold(BakerParameters { minimum_threshold_for_baking: g.amount() }), ul);
-        emit!("UpdatePayload", Some(34), UpdatePayload::AddAnonymityRevoker(Box::new(heavy.ars[(rep as usize) % heavy.ars.len()].clone())), ul);
-        emit!("UpdatePayload", Some(34), UpdatePayload::AddAnonymityRevoker(Box::new(g.ar_info())), ul);
-        emit!("UpdatePayload", Some(34), UpdatePayload::AddIdentityProvider(Box::new(heavy.ip_info.clone())), ul);
-        emit!("UpdatePayload", Some(34), UpdatePayload::CooldownParametersCPV1(CooldownParameters { pool_owner_cooldown: DurationSeconds { seconds: g.r.u64_edge() }, delegator_cooldown: DurationSeconds { seconds: g.r.u64_edge() } }), ul);
+        emit!("UpdatePayload", Some(51), UpdatePayload::MintDistributionCPV1(MintDistributionV1 { baking_reward: fr(half), finalization_reward: fr((100_000 - half) / 2) }), ul);
+        emit!("UpdatePayload", Some(51), UpdatePayload::TransactionFeeDistribution(TransactionFeeDistribution { baker: fr(half), gas_account: fr(100_000 - half) }), ul);
+        emit!("UpdatePayload", Some(51), UpdatePayload::GASRewards(GASRewards { baker: g.fraction(), finalization_proof: g.fraction(), account_creation: g.fraction(), chain_update: g.fraction() }), ul);
+        emit!("UpdatePayload", Some(51), UpdatePayload::GASRewardsCPV2(GASRewardsV1 { baker: g.fraction(), account_creation: g.fraction(), chain_update: g.fraction() }), ul);
+        emit!("UpdatePayload", Some(51), UpdatePayload::BakerStakeThreshold(BakerParameters { minimum_threshold_for_baking: g.amount() }), ul);
+        emit!("UpdatePayload", Some(51), UpdatePayload::AddAnonymityRevoker(Box::new(heavy.ars[(rep as usize) % heavy.ars.len()].clone())), ul);
+        emit!("UpdatePayload", Some(51), UpdatePayload::AddAnonymityRevoker(Box::new(g.ar_info())), ul);
+        emit!("UpdatePayload", Some(51), UpdatePayload::AddIdentityProvider(Box::new(heavy.ip_info.clone())), ul);
+        emit!("UpdatePayload", Some(51), UpdatePayload::CooldownParametersCPV1(CooldownParameters { pool_owner_cooldown: DurationSeconds { seconds: g.r.u64_edge() }, delegator_cooldown: DurationSeconds { seconds: g.r.u64_edge() } }), ul);
         let rng_ = |lo: u32, hi: u32| { let mut b = to_bytes(&fr(lo)); b.extend(to_bytes(&fr(hi))); b };
         let mut pp = vec![]; for _ in 0..3 { pp.extend(to_bytes(&g.fraction())); }
         pp.extend(rng_(0, 100_000)); pp.extend(rng_(half, half)); pp.extend(rng_(0, half));
         pp.extend(to_bytes(&g.amount())); pp.extend(to_bytes(&g.fraction()));
         let (a, b) = g.coprime(); let (a, b) = if a >= b { (a, b) } else { (b, a.max(1)) }; let gg = num::integer::gcd(a, b);
         pp.extend(to_bytes(&(a / gg))); pp.extend(to_bytes(&(b / gg)));
-        emit!("UpdatePayload", Some(34), UpdatePayload::PoolParametersCPV1(de(&pp)), ul);
+        emit!("UpdatePayload", Some(51), UpdatePayload::PoolParametersCPV1(de(&pp)), ul);
         let mut tp = to_bytes(&g.r.u64_edge()); tp.extend(to_bytes(&g.r.u32_edge())); tp.push(g.r.below(256) as u8);
-        emit!("UpdatePayload", Some(34), UpdatePayload::TimeParametersCPV1(de(&tp)), ul);
-        emit!("UpdatePayload", Some(34), UpdatePayload::TimeoutParametersCPV2(TimeoutParameters::new(concordium_base::contracts_common::Duration::from_millis(g.r.u64_edge()),
+        emit!("UpdatePayload", Some(51), UpdatePayload::TimeParametersCPV1(de(&tp)), ul);
+        emit!("UpdatePayload", Some(51), UpdatePayload::TimeoutParametersCPV2(TimeoutParameters::new(concordium_base::contracts_common::Duration::from_millis(g.r.u64_edge()),
             Ratio::new(*g.r.pick(&[2u64, 3, u64::MAX]), 1).unwrap(), Ratio::new(1, *g.r.pick(&[2u64, 3, u64::MAX])).unwrap()).unwrap()), ul);
-        emit!("UpdatePayload", Some(34), UpdatePayload::MinBlockTimeCPV2(concordium_base::contracts_common::Duration::from_millis(g.r.u64_edge())), ul);
-        emit!("UpdatePayload", Some(34), UpdatePayload::BlockEnergyLimitCPV2(g.r.u64_edge().into()), ul);
-        emit!("UpdatePayload", Some(34), UpdatePayload::FinalizationCommitteeParametersCPV2(FinalizationCommitteeParameters { min_finalizers: g.r.u32_edge(), max_finalizers: g.r.u32_edge(),
+        emit!("UpdatePayload", Some(51), UpdatePayload::MinBlockTimeCPV2(concordium_base::contracts_common::Duration::from_millis(g.r.u64_edge())), ul);
+        emit!("UpdatePayload", Some(51), UpdatePayload::BlockEnergyLimitCPV2(g.r.u64_edge().into()), ul);
+        emit!("UpdatePayload", Some(51), UpdatePayload::FinalizationCommitteeParametersCPV2(FinalizationCommitteeParameters { min_finalizers: g.r.u32_edge(), max_finalizers: g.r.u32_edge(),
             finalizers_relative_stake_threshold: PartsPerHundredThousands::new(half).unwrap() }), ul);
-        emit!("UpdatePayload", Some(34), UpdatePayload::ValidatorScoreParametersCPV3(ValidatorScoreParameters { max_missed_rounds: g.r.u64_edge() }), ul);
-        emit!("UpdatePayload", Some(34), UpdatePayload::CreatePlt(CreatePlt { token_id: de(&tok), token_module: de(&g.r.bytes(32)), decimals: g.r.below(256) as u8, initialization_parameters: de(&cbor) }), ul);
+        emit!("UpdatePayload", Some(51), UpdatePayload::ValidatorScoreParametersCPV3(ValidatorScoreParameters { max_missed_rounds: g.r.u64_edge() }), ul);
+        emit!("UpdatePayload", Some(51), UpdatePayload::CreatePlt(CreatePlt { token_id: de(&tok), token_module: de(&g.r.bytes(32)), decimals: g.r.below(256) as u8, initialization_parameters: de(&cbor) }), ul);
 
         // ---- BlockItem
         let bl = |b: &BI| blockitem_variant(b).to_string();
-        emit!("BlockItem", Some(35), BI::AccountTransaction(g.account_tx_encoded()), bl);
-        emit!("BlockItem", Some(35), BI::UpdateInstruction(g.update_instruction()), bl);
-        emit!("BlockItem", Some(35), BI::AccountTransactionV1(g.account_tx_v1()), bl);
-        emit!("BlockItem", Some(35), BI::CredentialDeployment(Box::new(idt::AccountCredentialMessage { message_expiry: TransactionTime::from_seconds(g.r.u64_edge()),
+        emit!("BlockItem", Some(52), BI::AccountTransaction(g.account_tx_encoded()), bl);
+        emit!("BlockItem", Some(52), BI::UpdateInstruction(g.update_instruction()), bl);
+        emit!("BlockItem", Some(52), BI::AccountTransactionV1(g.account_tx_v1()), bl);
+        emit!("BlockItem", Some(52), BI::CredentialDeployment(Box::new(idt::AccountCredentialMessage { message_expiry: TransactionTime::from_seconds(g.r.u64_edge()),
             credential: idt::AccountCredential::Initial { icdi: heavy.icdi.clone() } })), bl);
-        emit!("BlockItem", Some(35), BI::CredentialDeployment(Box::new(idt::AccountCredentialMessage { message_expiry: TransactionTime::from_seconds(g.r.u64_edge()),
+        emit!("BlockItem", Some(52), BI::CredentialDeployment(Box::new(idt::AccountCredentialMessage { message_expiry: TransactionTime::from_seconds(g.r.u64_edge()),
             credential: idt::AccountCredential::Normal { cdi: heavy.cdi.clone() } })), bl);
 
         // ---- small sum types
@@ -877,6 +889,28 @@ fn variants(seed: u64, reps: u64) {
         let v4 = g.r.bytes(4); let v6 = g.r.bytes(16);
         emit!("IpAddr", None, std::net::IpAddr::V4(std::net::Ipv4Addr::new(v4[0], v4[1], v4[2], v4[3])), |a: &std::net::IpAddr| ipaddr_variant(a).to_string());
         emit!("IpAddr", None, std::net::IpAddr::V6({ let mut o = [0u8; 16]; o.copy_from_slice(&v6); std::net::Ipv6Addr::from(o) }), |a: &std::net::IpAddr| ipaddr_variant(a).to_string());
+    }
+    // implementation-generated values of derived types (credentials and transfers from the real pipeline): keyed by the
+    // translator's output name; the check maps them to the generated schema ids
+    {
+        let fx = |name: &str, b: Vec<u8>| println!("{}", json!({"k": "fixture", "name": name, "hex": hex(&b)}));
+        fx("CredentialDeploymentInfo_IpPairing_ArCurve_AttributeKind", to_bytes(&heavy.cdi));
+        fx("CredentialDeploymentValues_ArCurve_AttributeKind", to_bytes(&heavy.cdi.values));
+        fx("IdOwnershipProofs_IpPairing_ArCurve", to_bytes(&heavy.cdi.proofs.id_proofs));
+        fx("CredentialDeploymentCommitments_ArCurve", to_bytes(&heavy.cdi.proofs.id_proofs.commitments));
+        fx("InitialCredentialDeploymentInfo_ArCurve_AttributeKind", to_bytes(&heavy.icdi));
+        fx("InitialCredentialDeploymentValues_ArCurve_AttributeKind", to_bytes(&heavy.icdi.values));
+        fx("AccountCredentialMessage_IpPairing_ArCurve_AttributeKind", to_bytes(&idt::AccountCredentialMessage { message_expiry: TransactionTime::from_seconds(77),
+            credential: idt::AccountCredential::Normal { cdi: heavy.cdi.clone() } }));
+        fx("AccountCredentialMessage_IpPairing_ArCurve_AttributeKind", to_bytes(&idt::AccountCredentialMessage::<IpPairing, ArCurve, AttributeKind> { message_expiry: TransactionTime::from_seconds(0),
+            credential: idt::AccountCredential::Initial { icdi: heavy.icdi.clone() } }));
+        fx("IpInfo_IpPairing", to_bytes(&heavy.ip_info));
+        fx("GlobalContext_ArCurve", to_bytes(&heavy.global));
+        fx("EncryptedAmountTransferData_ArCurve", to_bytes(&heavy.enc));
+        fx("EncryptedAmountTransferProof_ArCurve", to_bytes(&heavy.enc.proof));
+        fx("EncryptedAmount_ArCurve", to_bytes(&heavy.enc.remaining_amount));
+        fx("SecToPubAmountTransferData_ArCurve", to_bytes(&heavy.s2p));
+        fx("SecToPubAmountTransferProof_ArCurve", to_bytes(&heavy.s2p.proof));
     }
     // coverage: every variant of every enum must have been constructed
     let mut cov = serde_json::Map::new();
@@ -909,7 +943,7 @@ fn main() {
     match mode {
         "pool" => {
             let p = make_pool(seed);
-            for (k, l) in [(1, &p.ed_pk), (2, &p.vrf_pk), (3, &p.bls_pk), (4, &p.dlog), (5, &p.blsproof), (7, &p.cred_id), (8, &p.elg_pk), (9, &p.g1)] {
+            for (k, l) in [(1, &p.ed_pk), (2, &p.vrf_pk), (3, &p.bls_pk), (4, &p.dlog), (5, &p.blsproof), (7, &p.cred_id), (8, &p.elg_pk), (9, &p.g1), (10, &p.g2), (11, &p.fr)] {
                 for e in l.iter() { println!("{} {}", k, hex(e)); }
             }
         }
@@ -942,7 +976,7 @@ fn main() {
                     None => { let _ = writeln!(w, "{}", json!({"i": i, "r": "?"})); }
                     Some(o) => {
                         // variant tag for the sum types with unmodelled variants
-                        let vt = if o.r == 'A' { match key { "27" | "34" | "35" | "47" | "48" => o.reenc.first().copied(),
+                        let vt = if o.r == 'A' { match key { "27" | "34" | "35" | "47" | "48" | "50" | "51" | "52" => o.reenc.first().copied(),
                             "28" => { let mut c = std::io::Cursor::new(&input[..]);
                                       AccountTransaction::<Payload>::deserial(&mut c).ok().map(|t| to_bytes(&t.payload)[0]) }
                             _ => None } } else { None };
@@ -951,6 +985,30 @@ fn main() {
                     }
                 }
                 let _ = w.flush();
+            }
+        }
+        "leaves" => {
+            // stdin: "<kind> <hex>" -> "<kind> <hex> <1|0>": does the implementation accept these bytes as an opaque leaf of that kind
+            fn ok<T: Serial + Deserial>(b: &[u8]) -> bool {
+                let mut c = std::io::Cursor::new(b);
+                match guarded(|| T::deserial(&mut c)) { Ok(Ok(v)) => c.position() as usize == b.len() && guarded(|| to_bytes(&v)).ok().as_deref() == Some(b), _ => false }
+            }
+            let stdin = std::io::stdin();
+            for line in stdin.lock().lines() {
+                let line = line.unwrap();
+                let mut it = line.split_whitespace();
+                let k: u32 = it.next().and_then(|x| x.parse().ok()).unwrap_or(0);
+                let hx = it.next().unwrap_or("");
+                let b = unhex(hx);
+                let v = match k {
+                    1 => ok::<BakerSignatureVerifyKey>(&b), 2 => ok::<BakerElectionVerifyKey>(&b), 3 => ok::<BakerAggregationVerifyKey>(&b),
+                    4 => ok::<concordium_base::eddsa_ed25519::Ed25519DlogProof>(&b),
+                    5 => ok::<concordium_base::aggregate_sig::Proof<AggregateSigPairing>>(&b),
+                    7 => ok::<CredentialRegistrationID>(&b), 8 => ok::<concordium_base::elgamal::PublicKey<ArCurve>>(&b),
+                    9 => ok::<ArCurve>(&b), 10 => ok::<concordium_base::id::constants::BlsG2>(&b),
+                    11 => ok::<concordium_base::id::constants::BaseField>(&b),
+                    _ => false };
+                println!("{} {} {}", k, hx, if v { 1 } else { 0 });
             }
         }
         "fuzz" => fuzz(seed, n),
